@@ -893,11 +893,18 @@ func vf23Run(c *vf23Case, fast bool) *vf23Result {
 			data = head.Data
 			e.inbox = e.inbox[1:]
 		}
+		// the transport owns its receive buffer: it is handed to HandleData and re-used for the next datagram as soon as
+		// the call has returned (modelled by overwriting it), so nothing the connection keeps may alias it
 		data = append([]byte(nil), data...)
-		if e == res.cli {
-			return call(e, "HandleData", "(*UQUICConn).HandleData", func() error { return cq.HandleData(head.Level, data) })
+		scribble := func() {
+			for i := range data {
+				data[i] = 0xa5
+			}
 		}
-		return call(e, "HandleData", "(*QUICConn).HandleData", func() error { return sq.HandleData(head.Level, data) })
+		if e == res.cli {
+			return call(e, "HandleData", "(*UQUICConn).HandleData", func() error { err := cq.HandleData(head.Level, data); scribble(); return err })
+		}
+		return call(e, "HandleData", "(*QUICConn).HandleData", func() error { err := sq.HandleData(head.Level, data); scribble(); return err })
 	}
 	stopped := func() bool { return res.hang != "" || res.notParked != "" }
 	faultAt := func(step int) bool { // returns true when the run is over
